@@ -111,4 +111,39 @@ def run(repo='/repo', tier='quick'):
                 res.check(capped, 'C08.f', key, 'the header table size is capped before every add',
                           '%s scans the whole %s header table (linear %s) once per header line and nothing caps the number of distinct headers: k distinct names cost O(k^2)' % (pf.name, side, c['callee']), c['loc'])
     res.assumptions.append('an O(n) bound for all inputs is not decided; only that each cap the bound relies on is present on all paths')
+    # ---------------- C08.g the Content-Encoding token loop is bounded by the layer limit in every iteration
+    res.rule('C08.g', 'the Content-Encoding token loop passes the layer-limit test in every iteration (not only when a token adds a decompressor): each pass re-skips the separators in front of the current token, so an unbounded number of passes over a long separator run is quadratic')
+    hf = db.get('htp_tx_state_response_headers')
+    lims = [b for b in hf.blocks if hf.cond_of(b) and 'response_decompression_layer_limit' in S(hf.cond_of(b)[0]) and (P.canon(hf.cond_of(b)[0]) or ('', '==', ''))[1] not in ('==', '!=')]
+    lps = [(h, body) for h, body in C.loops(hf) if any(b in body for b in lims)]
+    if not lims or not lps:
+        raise AnalysisBroken('C08.g: the layer-limit test inside a loop of htp_tx_state_response_headers was not found')
+    h, body = max(lps, key=lambda hb: len(hb[1]))
+    # forward must-analysis inside the body: "the limit test has been evaluated since the loop head"
+    # (the `limit != 0 &&` operand in front of it short-circuits: with limit == 0 the loop is unbounded by design)
+    zero = [b for b in hf.blocks if hf.cond_of(b) and P.canon(hf.cond_of(b)[0]) and P.canon(hf.cond_of(b)[0])[0].endswith('response_decompression_layer_limit') and P.canon(hf.cond_of(b)[0])[1] in ('==', '!=')]
+    entry = [s_ for s_ in hf.blocks[h]['succs'] if s_ in body][0] if hf.cond_of(h) else h
+    IN = {entry: False}
+    work = [entry]
+    backs = []
+    while work:
+        b = work.pop()
+        v = IN[b] or b in lims or b in zero
+        for s_ in hf.blocks[b]['succs']:
+            if s_ is None:
+                continue
+            if s_ == h:
+                backs.append((b, v))
+                continue
+            if s_ not in body:
+                continue
+            nv = v if s_ not in IN else (IN[s_] and v)
+            if s_ not in IN or nv != IN[s_]:
+                IN[s_] = nv
+                work.append(s_)
+    if h in lims or h in zero:
+        backs = [(b, True) for b, v in backs]
+    badb = [b for b, v in backs if not v]
+    res.check(not badb and bool(backs), 'C08.g', 'htp_tx_state_response_headers:token-loop:limit-every-iteration', 'every way back to the loop head has passed the layer-limit test',
+              'a token that adds no decompressor goes round the Content-Encoding loop without passing the layer-limit test: the number of passes is no longer bounded by the limit, and each pass re-scans the separators in front of the current token', hf.blocks[lims[0]]['stmts'][-1]['loc'])
     return res
